@@ -17,7 +17,8 @@ CHECK = {'level': 'exploration',
            {'name': 'random', 'pkg': 'db', 'run': '^TestVerif_C17_Random$', 'timeout_q': 300, 'timeout_t': 1800},
            {'name': 'persist', 'pkg': 'db', 'run': '^TestVerif_C17_Persist$', 'timeout_q': 300, 'timeout_t': 1800},
            {'name': 'overlap', 'pkg': 'db', 'run': '^TestVerif_C17_Overlap$', 'timeout_q': 300, 'timeout_t': 1800},
-           {'name': 'race', 'pkg': 'db', 'race': True, 'run': '^TestVerif_C17_Race$', 'timeout_q': 400, 'timeout_t': 2400}],
+           {'name': 'race', 'pkg': 'db', 'race': True, 'run': '^TestVerif_C17_Race$', 'timeout_q': 400, 'timeout_t': 2400},
+           {'name': 'push', 'pkg': 'rest', 'run': '^TestVerif_C17_Push$', 'timeout_q': 600, 'timeout_t': 2400, 'env': {'SG_TEST_BUCKET_POOL_SIZE': '8'}}],
  'min_evals': 1000000,
  'min_counters': {'exhaustive.interleavings': 1000000,
                   'exhaustive.ticks_checked': 1000000,
